@@ -928,3 +928,27 @@ def inherited_dtype_obligation(ctx):
                  if m.name.startswith('elfi') and not m.name.startswith('elfi.examples'))
         ctx.ok('elfi', 'no returned *_like result buffer',
                '{} functions scanned; positive example matched'.format(nf))
+
+
+def increment_of(stmt, by=None):
+    """(name, amount expr) when stmt adds to a local name: `x += e` or `x = x + e` / `x = e + x`;
+    else None.  With `by` (a number) the amount must be that constant."""
+    name = amt = None
+    if isinstance(stmt, ast.AugAssign) and isinstance(stmt.op, ast.Add) and \
+            isinstance(stmt.target, ast.Name):
+        name, amt = stmt.target.id, stmt.value
+    elif isinstance(stmt, ast.Assign) and len(stmt.targets) == 1 and \
+            isinstance(stmt.targets[0], ast.Name) and isinstance(stmt.value, ast.BinOp) and \
+            isinstance(stmt.value.op, ast.Add):
+        x = stmt.targets[0].id
+        l, r = stmt.value.left, stmt.value.right
+        if isinstance(l, ast.Name) and l.id == x:
+            name, amt = x, r
+        elif isinstance(r, ast.Name) and r.id == x:
+            name, amt = x, l
+    if name is None:
+        return None
+    if by is not None and not (isinstance(amt, ast.Constant) and amt.value == by and
+                               not isinstance(amt.value, bool)):
+        return None
+    return name, amt
